@@ -275,7 +275,7 @@ func (g *c20gen) value(depth int) (interface{}, exp) {
 	if depth <= 0 || g.r.P(2, 5) {
 		return g.scalar()
 	}
-	switch g.r.Intn(12) {
+	switch g.r.Intn(13) {
 	case 0, 1:
 		g.kinds["[]interface{}"] = true
 		n := g.r.Intn(4)
@@ -368,10 +368,37 @@ func (g *c20gen) value(depth int) (interface{}, exp) {
 			}
 			return &[]interface{}{shared, shared}, exp{kind: "list", list: []exp{se, se}}
 		}
+	case 11:
+		// two different struct types that print the same type name (types local to two functions)
+		g.kinds["same-named-struct-types"] = true
+		if g.r.Bool() {
+			return g.rowA()
+		}
+		return g.rowB()
 	default:
 		g.kinds["struct-nested"] = true
 		return g.outer(depth - 1)
 	}
+}
+
+func (g *c20gen) rowA() (interface{}, exp) {
+	type Row struct {
+		ID   int
+		Name string
+	}
+	v := Row{g.r.Intn(1000), g.str()}
+	return v, exp{kind: "map", m: map[string]exp{g.key("ID"): {kind: "int", i: int64(v.ID)}, g.key("Name"): {kind: "string", s: v.Name}}}
+}
+
+func (g *c20gen) rowB() (interface{}, exp) {
+	type Row struct {
+		Title string
+		Score float64
+		Tags  []string
+	}
+	v := Row{g.str(), float64(g.r.Intn(100)) / 4, []string{"t"}}
+	return &v, exp{kind: "map", m: map[string]exp{g.key("Title"): {kind: "string", s: v.Title}, g.key("Score"): {kind: "float", f: v.Score},
+		g.key("Tags"): {kind: "list", list: []exp{{kind: "string", s: "t"}}}}}
 }
 
 type c20Pair struct {
@@ -673,7 +700,7 @@ func init() {
 		Floors: func(obs map[string]int64, cells map[string]bool, tier string) []string {
 			var why []string
 			for _, k := range []string{"nil", "bool", "int", "int8", "int16", "int32", "int64", "uint", "uint8", "uint16", "uint32", "uint64", "float32", "float64", "string", "time", "*time",
-				"marshaler", "*marshaler", "nil-pointer", "[]interface{}", "[]int", "nil-slice", "map[string]interface{}", "map[string]int", "nil-map", "struct", "*struct", "**struct", "struct-nested", "named-primitive-marshaler", "[]named-primitive-marshaler", "shared-pointer"} {
+				"marshaler", "*marshaler", "nil-pointer", "[]interface{}", "[]int", "nil-slice", "map[string]interface{}", "map[string]int", "nil-map", "struct", "*struct", "**struct", "struct-nested", "named-primitive-marshaler", "[]named-primitive-marshaler", "shared-pointer", "same-named-struct-types"} {
 				if !cells["kind:"+k] {
 					why = append(why, "Go kind never generated: "+k)
 				}
